@@ -1,13 +1,15 @@
 #!/bin/bash
 # usage: tools/detect_mutants.sh <ID-k> [<ID-k> ...]   - runs the owning check (quick) against a scratch worktree with the
-# mutant applied (never /repo), writes seeded/<ID-k>/detect.json
+# mutant applied (never /repo), from a snapshot of /verif (so that edits made meanwhile do not disturb it);
+# writes seeded/<ID-k>/detect.json
 set -u
-WT=/tmp/mut/detect_$$
+WT=/tmp/mut/detect_$$; SNAP=/tmp/mut/vsnap_$$
 git -C /repo worktree add --detach $WT HEAD -q || exit 2
+mkdir -p $SNAP && rsync -a --exclude .git --exclude build --exclude evidence --exclude replay --exclude seeded /verif/ $SNAP/
 for mk in "$@"; do
   id=${mk%-*}; d=/verif/seeded/$mk
   ( cd $WT && git checkout -q -- . && git clean -fdq liesel && git apply $d/patch.diff ) || { echo "{\"applies_to_head\": false}" > $d/detect.json; continue; }
-  out=$(cd /verif && VERIF_REPO=$WT VERIF_EVIDENCE_DIR=/tmp/mut/ev_$$ VERIF_REPLAY_DIR=/tmp/mut/rp_$$ VERIF_BUILD_DIR=/tmp/mut/bd_$$ timeout 1500 ./check $id --tier quick 2>&1)
+  out=$(cd $SNAP && VERIF_REPO=$WT VERIF_EVIDENCE_DIR=/tmp/mut/ev_$$ VERIF_REPLAY_DIR=/tmp/mut/rp_$$ VERIF_BUILD_DIR=/tmp/mut/bd_$$ timeout 1500 ./check $id --tier quick 2>&1)
   rc=$(echo "$out" | grep -oE "exit=[0-9]+" | tail -1 | cut -d= -f2)
   keys=$(echo "$out" | grep -oE "key=[^ ]+" | sort -u | tr '\n' ' ')
   /venv/bin/python - "$d" "$id" "${rc:-9}" "$keys" <<'PY'
@@ -17,4 +19,4 @@ json.dump({"applies_to_head": True, "check": pid, "tier": "quick", "exit": int(r
 print(d, rc, keys[:200])
 PY
 done
-cd $WT && git checkout -q -- . ; git -C /repo worktree remove --force $WT; rm -rf /tmp/mut/ev_$$ /tmp/mut/rp_$$ /tmp/mut/bd_$$
+cd $WT && git checkout -q -- . ; git -C /repo worktree remove --force $WT; rm -rf /tmp/mut/ev_$$ /tmp/mut/rp_$$ /tmp/mut/bd_$$ $SNAP
